@@ -91,7 +91,9 @@ def _spec_order_problems(root, problems, counter):
         order = SPEC_ORDER.get((ns, local))
         if not order:
             continue
-        seq = [c.tag.split("}")[-1] for c in e if c.tag.split("}")[-1] in order]
+        # (a child counts as the schema's own only in one of the schemas' namespaces: a foreign element that merely shares a local name is
+        #  extension content and comes last)
+        seq = [c.tag.split("}")[-1] for c in e if c.tag.split("}")[-1] in order and c.tag[1:].split("}")[0] in (SAML_NS, SAMLP_NS, MD_NS, DS_NS, XENC_NS)]
         idx = [order.index(x) for x in seq]
         counter[0] += 1
         if idx != sorted(idx):
